@@ -29,8 +29,8 @@ except Exception as _ex:
     GEN_STATUS["RoundOpsGen.v"] = "unparsed generator-failed: %s" % str(_ex)[:200]
 
 GEN_TIED = {
-    "RoundOpsGen.v": ("float/src/round_ops.rs FBig::{trunc, split_at_point(_internal), fract, ceil, floor, round}, convert.rs FBig::to_int, Repr::to_int",
-                      "C10_entry_point_bodies_generated"),
+    "RoundOpsGen.v": ("float/src/round_ops.rs FBig::{trunc, split_at_point(_internal), fract, ceil, floor, round}, convert.rs FBig::to_int, Repr::to_int, with_precision's condition, repr.rs Context::repr_round(_ref)",
+                      "C10_entry_point_bodies_generated, C10_digit_removal_generated"),
     "RatioSmall.v": ("rational/src/round.rs impl Repr", "C10_rat_generated_bodies, C10_rat_generated_spec"),
     "RoundPrimGen.v": ("float/src/round.rs Round::{round_fract, round_ratio} incl. the repaired assertions (F04, F05), repr.rs smaller_than_one, round_ops.rs FBig::round",
                        "C10_round_fract_generated, C10_round_fract_assertion_generated, C10_round_ratio_generated, C10_small_tests_generated"),
@@ -58,7 +58,7 @@ CASE_TIMEOUT = {"quick": 30, "thorough": 120}
 MODES = ["Zero", "Away", "Up", "Down", "HalfEven", "HalfAway"]
 BASES = [2, 2, 3, 8, 10, 10, 10, 16, 36]
 
-LEVEL_TEXT = ("Coq theorems for all inputs (95 pinned; every base B >= 2, every float, every digits_ub that never under-estimates): the as-is models "
+LEVEL_TEXT = ("Coq theorems for all inputs (100 pinned; every base B >= 2, every float, every digits_ub that never under-estimates): the as-is models "
               "of FBig::{trunc,floor,ceil,round,fract,split_at_point,to_int,with_precision}, Repr::to_int, split_at_point_internal / "
               "smaller_than_one return the neighbour of the exact value their definition names (spec_round under Zero/Down/Up/HalfAway/"
               "the type's mode), trunc + fract = x with |fract| < 1 and the sign of x, the Exact/NoOp/AddOne/SubOne flag is the true "
@@ -99,8 +99,15 @@ LEVEL_TEXT = ("Coq theorems for all inputs (95 pinned; every base B >= 2, every 
               "`precision as f32` is rounded there, and the coarse tests stay sound because the two ADJUST products of log2_bounds_large leave slack "
               "((1+u)^3 (1-4u) < 1-u, u = 2^-24): proved for Flocq's binary32 arithmetic, TypedReprRef::log2_bounds computed from ANY sound "
               "double-word bounds, every digit count, fractions of fewer than 2^34 bits (C10_f32_filter_large_abstract, "
-              "C10_log2_bounds_large_slack, C10_f32_filter_all_digit_counts); (9) Round::Reverse (table regenerated by C11, cited): a directed mode "
-              "and its reverse return floor and ceiling of the exact value, a nearest mode is its own reverse (C10_reverse_mode_brackets). "
+              "C10_log2_bounds_large_slack, C10_f32_filter_all_digit_counts; composed with the entry points: C10_to_int_f32_any_exponent, "
+              "C10_with_precision_f32_any); (9) Round::Reverse (table regenerated by C11, cited): a directed mode "
+              "and its reverse return floor and ceiling of the exact value, a nearest mode is its own reverse (C10_reverse_mode_brackets); "
+              "(10) the BODIES of FBig::{trunc, split_at_point, split_at_point_internal, fract, ceil, floor, round}, FBig::to_int, Repr::to_int, "
+              "Context::repr_round / repr_round_ref and the condition under which with_precision rounds are regenerated from round_ops.rs / convert.rs / "
+              "repr.rs on every run (coq/gen/RoundOpsGen.v) and proved equal to the entry-point models for every input, infinities included "
+              "(C10_entry_point_bodies_generated, C10_digit_removal_generated); (11) the precision attached to every result follows the documented "
+              "rule - an integer keeps it, otherwise the digits after the radix point are subtracted (saturating) or the result is a shortcut constant "
+              "with precision 0, the fraction carries its digit count (C10_result_precisions; the oracle checks it on every answer). "
               "Every implementation answer is decided against the extracted specification.")
 LEVEL_NOTE = ("Trusted: Coq kernel, translators (tools/translate.py: round_low_part bodies; tools/translate_c10_r3.py: rational round.rs bodies, "
               "round_fract / round_ratio bodies and assertions, smaller_than_one, FBig::round threshold - status in the evidence), extraction + FastZ.v, "
@@ -108,11 +115,11 @@ LEVEL_NOTE = ("Trusted: Coq kernel, translators (tools/translate.py: round_low_p
               "arithmetic (one overflow found at isize::MIN and repaired, F03); digits_ub enters only through the contract 'never under-estimates' "
               "(C12 log2_bounds). The f32 pre-filter inside round_fract is covered by theorem for every digit count (below 2^24: C03's "
               "round_fract_flocq32 cited; from 2^24 on: C10_f32_filter_all_digit_counts, for fractions of fewer than 2^34 bits = 2 GiB, with "
-              "64-bit words); its hypotheses are the soundness of the double-word and Word log2 bounds (C12/C14) - the combination with the entry "
-              "points is stated per primitive call, the entry-point theorems themselves still take an implementation rf that agrees below K digits. "
+              "64-bit words); its hypotheses are the soundness of the double-word and Word log2 bounds (C12/C14); FBig::to_int and with_precision are composed with it (C10_to_int_f32_any_exponent, C10_with_precision_f32_any: the primitive as "
+              "written, any exponent / any number of removed digits, significands below 2^34 bits), ceil/floor/round never hand the primitive more digits "
+              "than the significand has plus two and keep the K-form of round 3. "
               "The run reaches 2^24 .. 2^27 binary digits next to the tie in every tier (op round_fract_half) and bases 3/10/16/36 at 2^24 digits in "
-              "the thorough tier. Still only compared: the precision attached to results beyond legality (proved legal, value of the usize not "
-              "pinned); fractions of 2^34 bits and more (second-order rounding terms exceed the 0.001 margin of the literals: neither proved nor "
+              "the thorough tier. Still only compared: fractions of 2^34 bits and more (second-order rounding terms exceed the 0.001 margin of the literals: neither proved nor "
               "refuted, not reachable in the sandbox). Five defects were repaired in /repo (findings/C10.json F01 = DESIGN 5.1 #20, F02, F03 = "
               "isize::MIN negation, F04 = cost of the debug assertion, F05 = round_ratio's assertion); F01/F02 are refuted in Coq on the pinned model, "
               "F04 by its cost model, F05 by C10_round_ratio_boundary_directed_refuted on the model before the repair (round_ratio_pub, kept). "
@@ -139,12 +146,13 @@ EXPLANATION = ("Each answer is compared with the Coq specification: int_spec (sp
                "type's mode; int_tiny where the power cannot be formed), fract_sig_spec (x - trunc x), to_int_spec / with_precision_spec (value "
                "and the flag relative to the truncated value), spec_round for rationals and for round_fract/round_ratio; infinities must give the "
                "documented panic; outside the primitives' preconditions the assertion must fire; a directed-mode with_precision chain must equal "
-               "the single rounding. Result precisions must keep the value legal (digits <= precision or unlimited). Model fidelity is measured "
+               "the single rounding. Result precisions must keep the value legal (digits <= precision or unlimited) and follow the documented rule (C10_result_precisions). Model fidelity is measured "
                "against the as-is entry points (*_full, under both admissible digits_ub instances) and, for the rationals and the primitives on "
                "arbitrary input, against the bodies and assertion conditions regenerated from the Rust sources (to_int against to_int_full4 with the "
                "sizes-first primitive round_fract_sz, which forms no power far below one half). At |num| = |den| round_ratio must refuse (F05).")
 TRUSTED_BASE = [
     "Coq 8.16.1 kernel; Flocq (binary32 rounding, relative_error_N_FLT) through C03's theorem round_fract_flocq32 and Float/FilterLargeProof.v",
+    "tools/translate_c10_r4.py renders the bodies of the nine entry points, repr_round(_ref) and with_precision's condition (fixed table of library calls: shr_digits = truncating division by B^k, split_digits(_ref) = Model.split_digits, shl_digits = multiplication by B^k - proved for base 10 / powers of two in RoundOpsDigits.v -, Repr::new = normalize, Context::new(p) = p, saturating_sub, Repr::digits = dlen, Repr::is_zero, Repr::sign, Context::is_limited)",
     "tools/translate.py renders the six round_low_part bodies of float/src/round.rs faithfully; tools/translate_c10_r3.py renders the bodies of rational/src/round.rs impl Repr, Round::round_fract / round_ratio and their assertion conditions, Repr::smaller_than_one and FBig::round's zero test (IBig / and % as Z.quot / Z.rem, a closure called once as its block, the two f32 tests as abstract predicates, IBig/Word::bit_len and usize::saturating_mul as fixed Gallina text) - status in the evidence",
     "extraction: ExtrOcamlBasic + ExtrOcamlZBigInt + coq/extract/FastZ.v directives; zarith 1.12; oracle/driver_c10.ml",
     "harness/src/bin/c10.rs and hlib (values moved through raw words, Repr::new, Context::new, FBig::from_repr, RBig/Relaxed::from_parts; round_fract_half builds B^k / 2 + delta with UBig::pow and a shift)",
@@ -572,7 +580,7 @@ def gen_cases(rng, tier, n):
             c = gen_inf(rng, tier)
         elif k < 99:
             c = gen_tiny(rng, tier)
-        elif rng.chance(1, 12 if tier == "quick" else 40):
+        elif rng.chance(1, 12 if tier == "quick" else 10):
             c = gen_half_large(rng, tier)
         else:
             c = gen_to_int_huge(rng, tier)
